@@ -209,26 +209,61 @@ func c12Descriptions(r *an.Run, m *runModel) {
 	r.Min("description call sites", 2)
 }
 
-// fingerprint summarises what a function does, independent of local names and
-// of the order of independent statements: multiset of resolved callees,
-// comparison operators with the kind of their operands, and constants.
-func fingerprint(f *ssa.Function) []string {
+// fingerprint summarises what a function does, independent of local names,
+// of the order of independent statements, of loop form (range / index), of the
+// polarity in which a comparison is written (a < b vs !(a >= b), De Morgan) and
+// of private helpers it may have been split into: the multiset of
+//   - resolved callees outside the function's own helper group,
+//   - comparison classes  eq(x,y)  /  lt(x,y)  over operand descriptors
+//     (constants by value, calls by callee, loaded struct fields by name),
+//   - string constants handed to calls, and map updates.
+func fingerprint(f *ssa.Function) []string { return fingerprintDepth(f, 2) }
+
+// fingerprintDepth is fingerprint with the given helper-inlining depth.
+func fingerprintDepth(f *ssa.Function, depth int) []string {
+	group := helperGroup(f, depth)
+	if depth == 0 {
+		group = []*ssa.Function{f}
+	}
+	in := map[*ssa.Function]bool{}
+	for _, g := range group {
+		in[g] = true
+	}
 	var out []string
-	for _, b := range f.Blocks {
-		for _, in := range b.Instrs {
-			switch x := in.(type) {
-			case ssa.CallInstruction:
-				out = append(out, "call "+an.CalleeName(x))
-			case *ssa.BinOp:
-				out = append(out, "binop "+x.Op.String()+" "+operandKind(x.X)+" "+operandKind(x.Y))
-			case *ssa.MapUpdate:
-				out = append(out, "mapupdate")
-			case *ssa.Store:
-				out = append(out, "store "+an.ShortType(x.Val.Type()))
-			case *ssa.Return:
-				out = append(out, fmt.Sprintf("return/%d", len(x.Results)))
-			case *ssa.If:
-				out = append(out, "if")
+	for _, g := range group {
+		for _, b := range g.Blocks {
+			for _, instr := range b.Instrs {
+				switch x := instr.(type) {
+				case ssa.CallInstruction:
+					if sc := an.StaticCallee(x); sc != nil && in[sc] {
+						continue
+					}
+					name := an.CalleeName(x)
+					if name == "builtin:len" || name == "builtin:append" || name == "builtin:cap" || strings.HasPrefix(name, "closure:") {
+						continue
+					}
+					out = append(out, "call "+name)
+					for _, a := range x.Common().Args {
+						if s, ok := an.ConstString(a); ok {
+							out = append(out, "const-arg "+s)
+						}
+					}
+				case *ssa.BinOp:
+					a, bb := operandKind(x.X), operandKind(x.Y)
+					switch x.Op {
+					case token.EQL, token.NEQ:
+						if a > bb {
+							a, bb = bb, a
+						}
+						out = append(out, "eq("+a+","+bb+")")
+					case token.LSS, token.GEQ:
+						out = append(out, "lt("+a+","+bb+")")
+					case token.GTR, token.LEQ:
+						out = append(out, "lt("+bb+","+a+")")
+					}
+				case *ssa.MapUpdate:
+					out = append(out, "mapupdate")
+				}
 			}
 		}
 	}
@@ -245,6 +280,11 @@ func operandKind(v ssa.Value) string {
 	}
 	if c, ok := v.(*ssa.Call); ok {
 		return "call:" + an.CalleeName(c)
+	}
+	if ex, ok := v.(*ssa.Extract); ok {
+		if c, ok := ex.Tuple.(*ssa.Call); ok {
+			return "result:" + an.CalleeName(c)
+		}
 	}
 	return an.ShortType(v.Type())
 }
@@ -268,8 +308,12 @@ func c12Siblings(r *an.Run, m *runModel) {
 		r.Fail("parser-mode", api.Pos(), "File.Apply does not parse its input with go/parser")
 	}
 	// imports.Options literals
-	lit := func(f *ssa.Function) (map[string]string, ssa.CallInstruction) {
-		for _, c := range an.CallsTo(f, importsProcess) {
+	lit := func(f0 *ssa.Function) (map[string]string, ssa.CallInstruction) {
+		var calls []ssa.CallInstruction
+		for _, g := range helperGroup(f0, 2) {
+			calls = append(calls, an.CallsTo(g, importsProcess)...)
+		}
+		for _, c := range calls {
 			al, ok := c.Common().Args[2].(*ssa.Alloc)
 			if !ok {
 				return nil, c
@@ -298,9 +342,12 @@ func c12Siblings(r *an.Run, m *runModel) {
 	}
 	// format.Node feeds imports.Process
 	for _, f := range []*ssa.Function{m.run, api} {
-		fnodes := an.CallsTo(f, formatNode)
-		procs := an.CallsTo(f, importsProcess)
-		good := len(fnodes) == 1 && len(procs) == 1 && fnodes[0].Block().Dominates(procs[0].Block())
+		var fnodes, procs []ssa.CallInstruction
+		for _, g := range helperGroup(f, 2) {
+			fnodes = append(fnodes, an.CallsTo(g, formatNode)...)
+			procs = append(procs, an.CallsTo(g, importsProcess)...)
+		}
+		good := len(fnodes) == 1 && len(procs) == 1 && fnodes[0].Parent() == procs[0].Parent() && fnodes[0].Block().Dominates(procs[0].Block())
 		if good {
 			// the bytes processed are the printer's buffer
 			good = derivesFrom(procs[0].Common().Args[1], an.Unwrap(fnodes[0].Common().Args[0]))
